@@ -207,7 +207,7 @@ package coroutines
 //@ macro cb_post(status, shown, cb, cbid, pid, root, recv, mtype, mroot, mleaf, timeout) linearizes((!pre_promises(pid).present ==> status == t_api.StatusPromiseNotFound && post_callbacks(cbid) == pre_callbacks(cbid)) && (pre_promises(pid).present ==> (status == t_api.StatusOK || status == t_api.StatusCreated) && shown != nil && pview(shown) == pview.row(pre_promises(pid)) && (status == t_api.StatusCreated ==> !pre_callbacks(cbid).present && p.pending(pre_promises(pid)) && cview.row(post_callbacks(cbid)) == mk.cview(cbid, pid, root, recv, mtype, mroot, mleaf, timeout, T)) && (status == t_api.StatusOK ==> post_callbacks(cbid) == pre_callbacks(cbid)) && (p.pending(pre_promises(pid)) ==> post_callbacks(cbid).present)))
 
 //@ func CreateCallback
-//@ props C02 C05 C20 C06
+//@ props C02 C05 C08 C20 C06
 //@ ghostdb coroutine
 //@ nopanic C13
 //@ requires c != nil && r != nil && r.CreateCallback != nil && r.CreateCallback.Recv != nil
